@@ -150,6 +150,43 @@ per_chunk!(handle_response_contract: c34_p_handle_response_128 = 128);
 per_chunk!(handle_response_contract: c34_p_handle_response_256 = 256);
 per_chunk!(handle_response_contract: c34_p_handle_response_512 = 512);
 
+// chunks of the WRONG but CONSTANT length (cheap even for an implementation that copies by the
+// received length, where the symbolic-length contract above makes CBMC run out of time): an answer
+// shorter or longer than the requested chunk -- including an empty one -- with the right cookie for
+// the outstanding request is rejected with MismatchedLength and leaves everything as it was.
+fn wrong_length_rejected(chunk_size: u16, len: usize) {
+    let mut r = any_wf_chunk(chunk_size);
+    let cookie = NtpClientCookie(kani::any());
+    r.last_requested = Some((r.next_to_request, cookie));
+    let (next, filled, before) = (r.next_to_request, r.is_filled, r.filter);
+    let buf = [0xA5u8; 516];
+    let resp = ReferenceIdResponse::decode(&buf[..len]);
+    let res = r.handle_response(cookie, &resp);
+    assert!(matches!(res, Err(ResponseHandlingError::MismatchedLength)));
+    let i: usize = kani::any();
+    kani::assume(i < 512);
+    assert!(r.filter.0[i] == before.0[i]);
+    assert!(r.next_to_request == next && r.is_filled == filled && r.last_requested == Some((next, cookie)));
+    assert!(wf(&r));
+}
+macro_rules! wrong_len {
+    ($($name:ident = ($c:expr, $l:expr)),*) => { $(
+        #[kani::proof]
+        fn $name() {
+            wrong_length_rejected($c, $l);
+            kani::cover!(true, "reachable");
+        }
+    )* };
+}
+wrong_len!(c34_p_wrong_length_4_empty = (4, 0));
+wrong_len!(c34_p_wrong_length_4_long = (4, 8));
+wrong_len!(c34_p_wrong_length_16_short = (16, 12));
+wrong_len!(c34_p_wrong_length_64_short = (64, 60));
+wrong_len!(c34_p_wrong_length_512_short = (512, 508));
+wrong_len!(c34_p_wrong_length_512_empty = (512, 0));
+wrong_len!(c34_p_wrong_length_512_long = (512, 516));
+
+
 // advance_next_to_request on its own, every invariant state.
 #[kani::proof]
 fn c34_p_advance() {
